@@ -10,6 +10,21 @@ TRUST = ("Trusted base: TLC 1.8.0 and the TLA+ modules under spec/; the Rust exe
          "calls and results; Python only generates inputs and moves files. ")
 
 CHECKS = {
+    "C05": dict(
+        technique="TLA+ spec BitField.tla (sequence of w-bit values over a store of bit positions, word type as a "
+                  "variable; design transcriptions of two-word get/set, window iterators, eq, reset): exhaustive TLC on "
+                  "W=4 and on the real W=8 + TLC-exported histories replayed on BitFieldVec<u8> + TLC trace validation "
+                  "for all six word types",
+        text="TLC explores every backend content, length, operation and argument of a 4-bit-word model (widths 0..4, "
+             "<=2(3) words) and the real 8-bit instantiation, checking refinement of Vec<value>, untouched neighbours, "
+             "clean panics, iterator designs and absence of out-of-range reads/shifts; every depth-2(3) history with an "
+             "observer battery is exported and replayed on BitFieldVec<u8>; random histories over u8..u128/usize, every "
+             "width 0..=W::BITS (incl. full width and all-ones values), growth/shrink/write interleavings, "
+             "vec/boxed/atomic/eps/mmap forms, slice and atomic views are executed and every call (result, length, "
+             "whole backend) is judged by TLC.",
+        note=TRUST + "Lengths < 2^31; exhaustive inside the stated menus. Two width-0 corner cases are recorded as "
+             "known findings (empty caller-supplied backend; try_chunks_mut).",
+        design_ref="5/C05"),
     "C06": dict(
         technique="TLA+ spec BitVec.tla: exhaustive TLC on the W=4 design model + TLC-exported W=64 histories "
                   "replayed on the real code + TLC trace validation of every execution",
@@ -20,6 +35,39 @@ CHECKS = {
              "against the same specification; long random histories are validated the same way.",
         note=TRUST + "Exhaustive only inside the stated menus/bounds; W=64 only; lengths < 2^31.",
         design_ref="5/C06"),
+    "C01": dict(
+        technique="TLA+ specs RankSel.tla (abstract bit vector as runs; rank by binary search) and RankDesign.tla (scaled "
+                  "transcription of Rank9 and the five RankSmall layouts incl. the hinted scan): exhaustive TLC + "
+                  "TLC-exported run recipes replayed on every rank structure / wrapper stack + TLC trace validation",
+        text="TLC checks on every bit vector of <=10 (thorough 16) bits, every length and every garbage beyond the "
+             "length that the transcribed counter layouts (Rank9, RankSmall 0..4) give rank(p) = prefix popcount for "
+             "all p, num_ones = ones, and read no word outside the backend; TLC exports every vector made of <=3(4) "
+             "alternating runs with lengths from {1,63,64,65,511,...,8193} x first bit x five tail treatments (clean, "
+             "pop, truncate, dirty last word, spare words); each is built on the real code as Rank9, rank_small![0..4] "
+             "and under stacks of selection wrappers (86 compiled stack types) and every recorded rank/rank_zero/"
+             "num_ones/count_ones/len/index call is judged by TLC; generated vectors add densities 0.001..0.999, "
+             "saturated blocks and two-density vectors.",
+        note=TRUST + "Trace validation covers vectors < 2^31 bits; upper_counts beyond 2^32 bits are covered only by "
+             "the scaled design model.",
+        design_ref="5/C01 C02"),
+    "C02": dict(
+        technique="TLA+ specs RankSel.tla + SelectDesign.tla (two-level adaptive inventory, span classes, spill, const "
+                  "and runtime parameters, ones and zeros), Select9Design.tla, SelectSmallDesign.tla (scaled "
+                  "superblocks): exhaustive TLC + TLC-exported recipes replayed on every selection structure and "
+                  "nesting + TLC trace validation",
+        text="TLC checks the transcribed constructions and queries of SelectAdapt/SelectAdaptConst and their zero twins "
+             "on every vector of <=8(12) bits x inventory parameters, SelectSmall/SelectZeroSmall on all seven layouts "
+             "with scaled 2^32-bit superblocks, and Select9 at its real parameters on structured vectors reaching all "
+             "six span classes: select(r) is the r-th one/zero, None past the count, no read outside the arrays; the "
+             "exported run recipes (as for C01) and generated vectors (gaps exactly at span thresholds, counts that are "
+             "multiples of the inventory quantum with ragged tails, word counts not divisible by 4, sparse vectors of "
+             "70000..2^20 bits, stale tails) are built as Select9, SelectAdapt (with_span/with_inv), SelectAdaptConst "
+             "over a menu of const parameters, the zero selectors, SelectSmall over each RankSmall, and nestings in both "
+             "orders; every select/select_zero/_unchecked/rank answer is judged by TLC against the same abstract vector.",
+        note=TRUST + "Vectors < 2^31 bits on the real code; the 64-bit span class and SelectSmall superblock logic "
+             "(> 2^32 bits) are decided on the scaled design models only (two defects found there were confirmed by "
+             "one-off 6*10^9-bit probes).",
+        design_ref="5/C01 C02"),
     "C03": dict(
         technique="TLA+ specs EliasFano.tla (abstract builder/sequence machine) and EFDesign.tla (transcription of the "
                   "low/high split, select-based get, iterator window): exhaustive TLC + TLC-exported builder histories "
@@ -50,6 +98,36 @@ CHECKS = {
              "as an additional client of the same contract.",
         note=TRUST + "n < 2^31; bounded design model.",
         design_ref="5/C03 C04"),
+    "C07": dict(
+        technique="TLA+ specs VBuild.tla (one acceptor Step over the build-loop events + abstract key->value map), "
+                  "ParSolve.tla (feeder/workers/channels), Peel.tla (low-memory peeler): exhaustive TLC (safety + "
+                  "Termination under fairness) + TLC-exported scenarios replayed + hook events and all answers "
+                  "trace-validated",
+        text="TLC explores the build loop for every n<=3(6) abstract keys x hint class (none, exact, smaller/larger across "
+             "a shard threshold) x duplicates x check_dups x function/filter x every fault placement and transient "
+             "failure, with invariants OkIsWhole, HintIrrelevant, ErrorsSurface, DupBound and termination; ParSolve "
+             "(K<=3 workers, 4 shards) and the peeler are model-checked for 'every shard solved exactly once', no "
+             "deadlock, no out-of-range access. On the real code every build emits its hook events (attempts, key "
+             "count, shard bits of edge logic and store, max shard, classification, rewind) which TLC validates with "
+             "the same Step, then len and get for every key (every n in 0..130 quick / 0..1000 thorough, sizes around "
+             "100, 100k, 800k (up to 2*10^7), six hints, key types, value recipes incl. width 0, Box<[W]> and "
+             "BitFieldVec backends, both signature widths, all logics incl. MWHC, offline, low_mem, threads 1..8, eps, "
+             "buckets, seeds) are judged against the abstract map.",
+        note=TRUST + "22 builder instantiations are compiled; ParSolve/Peel are design models bound to the code only "
+             "through end-to-end answers at sharded sizes with 1,2,4,8 threads. Needs hooks (--cfg sux_verif). Known "
+             "finding: MWHC logics (feature mwhc) never terminate on 2 (4, 9) keys.",
+        design_ref="5/C07 C17 C08"),
+    "C08": dict(
+        technique="TLA+ spec VBuild.tla (filter part: members, len, hash_bits, false-positive acceptance rule FpOk) + "
+                  "the build-loop acceptor: TLC model checking + trace validation of filter builds and probe batches",
+        text="Filters are built for every b in 1..64 on BitFieldVec<u64>, 1..8 on <u8>, every slice word u8..u64, "
+             "all logics, sizes from 0 to the regime switches, online/offline, and TLC judges: contains(k)=true and "
+             "index agreement for every inserted key, len = n, hash_bits = b, and for batches of 64*2^b (2^20 for b>20) "
+             "non-member probes that the number of positives lies in a six-sigma binomial interval around m/2^b "
+             "(both sides), together with the same build-loop conformance as C07.",
+        note=TRUST + "The false-positive claim is a statistical acceptance rule (deterministic keys; spurious "
+             "rejection probability < 1e-8 per batch), not a proof.",
+        design_ref="5/C07 C17 C08"),
     "C09": dict(
         technique="TLA+ specs RearCoded.tla (abstract list of byte strings) and RCLDesign.tla (transcription of block "
                   "coding, variable-byte rear lengths, pointers, sortedness flag, decoding, binary search + in-block scan "
@@ -76,6 +154,50 @@ CHECKS = {
         note=TRUST + "One genuine defect is recorded, not repaired (rewind of lender::Take keeps the remaining count; "
              "needs an API change): known_findings.json F-take-rewind-remaining. I/O errors are not injected here (C17).",
         design_ref="5/C20"),
+    "C10": dict(
+        technique="TLA+ spec BitField.tla (CopyDesign: six-way word-level copy; buffered apply_in_place on both paths; "
+                  "chunk views; unaligned byte read; reset variants) + BitVec.tla (fill/flip/count and par_ variants): "
+                  "exhaustive TLC on W=8 + exported cases replayed + TLC trace validation",
+        text="TLC checks CopyDesign against the documented element loop for every width 1..8, source/destination length "
+             "<=5..10, every (from,to,n) and alignment with per-branch coverage, and the apply/chunk/unaligned/reset "
+             "transcriptions for bounds and shift overflows; all cases are exported and replayed on BitFieldVec<u8>; "
+             "per-word-type alignment grids and random episodes drive copy into dirty destinations, apply_in_place with "
+             "a recording closure (call count, order, arguments), try_chunks_mut reads/writes through views, "
+             "get_unaligned inside its preconditions for every word type, reset/par_reset/reset_atomic, and the BitVec "
+             "bulk operations; TLC compares every result and the whole backend.",
+        note=TRUST + "apply_in_place is never driven with a function whose result does not fit the width. Known "
+             "finding: try_chunks_mut on width 0 panics.",
+        design_ref="5/C10"),
+    "C11": dict(
+        technique="space bounds stated in the TLA+ specs of every family (BitVec, BitField, RankSel, EliasFano with a "
+                  "fixed-point lg, VBuild, ShardEdge): TLC checks the design formulas against the documented bounds for "
+                  "all small sizes and validates every recorded mem_size event",
+        text="Each family's specification contains the documented bound with a named additive constant justified from "
+             "the allocation granularity (bit vectors: ceil(len/W) words while only built or grown; bit-field vectors "
+             "likewise + padding word; Rank9 25%, RankSmall 18.75..1.5625%, Select9 +37.5%; Elias-Fano n(2+max(0,lg "
+             "u/n)) bits with lg bracketed to 1/256 bit; functions/filters 1.23 n b, 1.135 n b from 100000 keys). TLC "
+             "checks the code's sizing formulas against the bounds for every (n,u) <= (64,1100(4096)) and all small "
+             "lengths, and judges mem_size events of thousands of builds at sizes around every block size, u/n at "
+             "2^e-1, 2^e, 2^e+1, and every regime switch of the function logics.",
+        note=TRUST + "Additive constants: <= 4 words (vectors), 11+2 words (Elias-Fano), one header/sentinel (rank/"
+             "select), 14 words + one segment per shard (functions). Known finding: FuseLge3NoShards exceeds 1.135 n b "
+             "between 100001 and ~737000 keys (by design of its handcrafted expansion factor). MWHC is bounded by its "
+             "documented 23%.",
+        design_ref="5/C11"),
+    "C12": dict(
+        technique="outcome rules of every TLA+ trace specification (ret / panic admitted per argument class, abort and "
+                  "hang admitted nowhere) + NoOOB invariants of the design models, checked by TLC; executions under "
+                  "ub_checks (debug assertions) and in release",
+        text="All families run dedicated out-of-domain scripts (index at/past the end, rank at/past the count, queries "
+             "above u, never-inserted keys, start at the end, usize::MAX, 2^63, empty and minimal structures, dirty "
+             "backends, wrong call order) under a profile where unchecked slice access out of bounds aborts the process; "
+             "the executor turns a dead process into an `abort` event and a stuck call into `hang`, and TLC rejects both "
+             "everywhere while demanding the documented result or a clean panic; the design models additionally carry "
+             "explicit bounds checks on every array read, model-checked exhaustively.",
+        note=TRUST + "The specification decides admissible outcomes but cannot observe memory: it relies on ub_checks / "
+             "SIGSEGV to surface out-of-bounds access (raw-pointer reads are modelled in the design only). Known "
+             "findings: zero-width BitFieldVec over an empty caller-supplied backend; try_chunks_mut on width 0.",
+        design_ref="5/C12"),
     "C13": dict(
         technique="TLA+ spec Atomic.tla (one action per atomic instruction): TLC explores every interleaving incl. CAS "
                   "retries of 2-4 writers (invariants NoInterference, SwapLinearizable, EqualsSequential; Termination "
@@ -95,6 +217,31 @@ CHECKS = {
              "location, so this is sound for distinct-element writers; reordering across different words is outside "
              "the model). Step-by-step conformance is tied to the pinned instruction order. Needs hooks (--cfg sux_verif).",
         design_ref="5/C13"),
+    "C14": dict(
+        technique="store component (set of backend bit positions incl. those beyond the length) of BitVec.tla and "
+                  "BitField.tla: TLC enumerates every garbage pattern in the small models, exports dirty-start histories, "
+                  "and validates store equality after every recorded call",
+        text="In the W=4/W=8 models TLC starts from every backend content for every length (all garbage patterns in the "
+             "last word and in spare words) and checks that every reader is a function of the logical contents and "
+             "that every writer changes exactly the documented positions; dirty-start histories (every subset of the "
+             "positions beyond the contents in the last word for W=8; all-ones/alternating/random garbage for W=64 and "
+             "the other word types) are executed on from_raw_parts vectors incl. atomic forms, chunk views, copy into "
+             "dirty destinations and apply_in_place, and after every call the whole backend obtained through the "
+             "public API must equal the specification's store.",
+        note=TRUST + "Exhaustive inside the stated menus; lengths < 2^31.",
+        design_ref="5/C14"),
+    "C15": dict(
+        technique="Reload action (abstract state unchanged, instance replaced by the loaded one) in every family's TLA+ "
+                  "specification; the full query battery is trace-validated on instances loaded by deserialize_full, "
+                  "deserialize_eps (buffers at 0 and 8 mod 16), mmap and the load_* helpers",
+        text="Bit vectors, bit-field vectors (all word types), every rank/select stack, all Elias-Fano variants and "
+             "back-ends, rear-coded lists, shard/edge logics and functions/filters with every logic are serialized and "
+             "loaded back in every way; the loaded instance replaces the structure under test, so the whole battery of "
+             "queries (not only positional access) and, for owned copies, further mutation is judged by the same "
+             "specification as the original; empty structures and chains of reloads are included.",
+        note=TRUST + "Serialization is derived by epserde; sensitivity shown with seeded alignment-dependent changes "
+             "(hence the two buffer placements).",
+        design_ref="5/C15"),
     "C16": dict(
         technique="TLA+ spec ShardEdge.tla (design of fuse/MWHC graphs + scaled transcriptions of edge_1/edge_2/"
                   "edge_2_big/mwhc::edge and all six ShardEdge implementations + wide-number contract on events): "
@@ -127,6 +274,19 @@ CHECKS = {
         note=TRUST + "Solvability of large random systems is decided in TLA+ by elimination (brute force only <= 10 "
              "variables). The systems lge_shard actually builds are imitated by the generators, not recorded.",
         design_ref="5/C19"),
+    "C17": dict(
+        technique="TLA+ spec VBuild.tla: fault placements, failing rewinds and duplicate classes are actions of the "
+                  "model (ErrorsSurface, DupBound, OkIsWhole, Termination checked by TLC); every scenario is exported "
+                  "and replayed with fault-injecting lenders; results and hook events are trace-validated",
+        text="TLC enumerates every (source, pass, index) fault, every failing rewind and duplicate/no-duplicate key set "
+             "for n<=3(6) with up to 4 passes and exports each scenario; the executor wraps the key and value lenders so "
+             "that they fail exactly there, and TLC judges that the injected error is the returned result, that "
+             "duplicates with check_dups give DuplicateKey after at most 4 attempts, that Ok is returned only for a "
+             "function that maps every supplied key (all gets checked), and that every call terminates (hang is "
+             "rejected); generated batches add faults at every position for n<=12, every multiset over 3 keys of size "
+             "<=5, one duplicate inside 10^4 keys, functions and filters, online and offline.",
+        note=TRUST + "Needs hooks (--cfg sux_verif).",
+        design_ref="5/C07 C17 C08"),
     "C18": dict(
         technique="TLA+ spec SigStore.tla (contract + design transcription of push/bucket counting, size aggregation and "
                   "the equal/aggregate/split iterator branches, online and file-backed with chunked reads): exhaustive "
@@ -144,7 +304,7 @@ CHECKS = {
         design_ref="5/C18"),
 }
 
-PENDING = "check under construction in this session (specification not yet bound to the code)"
+PENDING = "not claimed"
 ALL = ["C%02d" % i for i in range(1, 21)]
 
 
